@@ -24,7 +24,11 @@ type jcur struct {
 	segs []BSeg
 	si   int
 	bi   int
+	g    *G
+	symi int // index inside a Sym segment
 }
+
+type jinc struct{ msg string } // the text cannot be decided structurally (symbolic structural bytes)
 
 type jsynErr struct{ msg string }
 
@@ -38,7 +42,7 @@ func (c *jcur) peek() (byte, *Doc, bool) { // returns next byte or doc token; ok
 			c.si++
 			continue
 		case s.Sym != nil:
-			panic(jsynErr{"symbolic bytes in JSON text"})
+			panic(jinc{"symbolic bytes where JSON structure is expected"})
 		case s.Opq != nil:
 			panic(jsynErr{"opaque bytes in JSON text"})
 		default:
@@ -186,7 +190,7 @@ func (c *jcur) value() *Doc {
 			c.fail("invalid character %q after array element", nb)
 		}
 	case b == '"':
-		return &Doc{K: DStr, S: S(c.str())}
+		return &Doc{K: DStr, S: c.strLit()}
 	case b == 't':
 		c.lit("true")
 		return &Doc{K: DBool, B: Bool{C: true}}
@@ -216,48 +220,149 @@ func (c *jcur) value() *Doc {
 	return nil
 }
 
-func (c *jcur) str() string {
-	// collect raw literal including quotes, then let encoding/json decode it
-	var raw []byte
-	b, _, _ := c.peek()
-	raw = append(raw, b)
-	c.adv()
+// strTok returns the next element inside a string literal: a concrete byte or a symbolic one.
+func (c *jcur) strTok() (byte, *Term, bool) {
+	for c.si < len(c.segs) {
+		s := c.segs[c.si]
+		switch {
+		case s.D != nil:
+			c.fail("document token inside string literal")
+		case s.Pad != nil || s.Opq != nil:
+			panic(jinc{"padding/opaque bytes inside a string literal"})
+		case s.Sym != nil:
+			if c.symi < len(s.Sym) {
+				t := s.Sym[c.symi]
+				c.symi++
+				if t.IsConst() {
+					return byte(t.BV), nil, true
+				}
+				return 0, t, true
+			}
+			c.si++
+			c.symi = 0
+		default:
+			if c.bi < len(s.B) {
+				b := s.B[c.bi]
+				c.bi++
+				return b, nil, true
+			}
+			c.si++
+			c.bi = 0
+		}
+	}
+	return 0, nil, false
+}
+
+// strLit parses a string literal whose opening quote is the next byte. Symbolic
+// bytes are classified by forking (quote / backslash / control / ordinary).
+func (c *jcur) strLit() Str {
+	c.adv() // opening quote (concrete)
+	var out []*Term
+	var run []byte // pending concrete raw text (may contain escapes)
+	flush := func() {
+		if len(run) == 0 {
+			return
+		}
+		var dec string
+		if err := json.Unmarshal(append(append([]byte{'"'}, run...), '"'), &dec); err != nil {
+			c.fail("%s", err.Error())
+		}
+		for i := 0; i < len(dec); i++ {
+			out = append(out, BVConst(uint64(dec[i]), 8))
+		}
+		run = nil
+	}
 	for {
-		nb, nd, ok := c.peek()
+		b, t, ok := c.strTok()
 		if !ok {
 			c.fail("unexpected end of JSON input")
 		}
-		if nd != nil {
-			c.fail("document token inside string literal")
-		}
-		raw = append(raw, nb)
-		c.adv()
-		if nb == '\\' {
-			eb, ed, ok := c.peek()
-			if !ok || ed != nil {
-				c.fail("unexpected end of JSON input")
+		if t == nil {
+			if b == '"' {
+				flush()
+				return strFromBytes(out)
 			}
-			raw = append(raw, eb)
-			c.adv()
+			if b == '\\' {
+				nb, nt, ok := c.strTok()
+				if !ok {
+					c.fail("unexpected end of JSON input")
+				}
+				if nt != nil {
+					if c.g == nil {
+						panic(jinc{"symbolic escape character in a string literal"})
+					}
+					found := false
+					for _, cand := range []byte{'"', '\\', '/', 'b', 'f', 'n', 'r', 't', 'u'} {
+						if c.g.branch(mkBool(Eq(nt, BVConst(uint64(cand), 8)))) {
+							nb, found = cand, true
+							break
+						}
+					}
+					if !found {
+						c.fail("invalid escape in string literal")
+					}
+				}
+				run = append(run, b, nb)
+				if nb == 'u' {
+					for k := 0; k < 4; k++ {
+						hb, ht, ok := c.strTok()
+						if !ok {
+							c.fail("unexpected end of JSON input")
+						}
+						if ht != nil {
+							panic(jinc{"symbolic hex digit in a string literal"})
+						}
+						run = append(run, hb)
+					}
+				}
+				continue
+			}
+			if b < 0x20 {
+				c.fail("invalid character %q in string literal", b)
+			}
+			run = append(run, b)
 			continue
 		}
-		if nb == '"' {
-			break
+		if c.g == nil {
+			panic(jinc{"symbolic byte in a string literal"})
+		}
+		g := c.g
+		switch {
+		case g.branch(mkBool(Eq(t, BVConst('"', 8)))):
+			flush()
+			return strFromBytes(out)
+		case g.branch(mkBool(Eq(t, BVConst('\\', 8)))):
+			panic(jinc{"symbolic backslash in a string literal"})
+		case g.branch(mkBool(BVCmp("bvult", t, BVConst(0x20, 8)))):
+			c.fail("invalid character (control) in string literal")
+		default:
+			flush()
+			out = append(out, t)
 		}
 	}
-	var s string
-	if err := json.Unmarshal(raw, &s); err != nil {
-		c.fail("%s", err.Error())
+}
+
+func (c *jcur) str() string {
+	s := c.strLit()
+	if !s.IsConc() {
+		c.fail("invalid object key")
 	}
-	return s
+	return s.C
 }
 
 // parseFirst parses the first JSON value of b. rest is what follows it.
-func parseFirst(b *Blob) (d *Doc, rest *Blob, errMsg string) {
-	c := &jcur{segs: b.Segs}
+func parseFirst(g *G, b *Blob) (d *Doc, rest *Blob, errMsg string) {
+	c := &jcur{segs: b.Segs, g: g}
 	defer func() {
 		if p := recover(); p != nil {
 			if e, ok := p.(jsynErr); ok {
+				d, rest, errMsg = nil, nil, e.msg
+				return
+			}
+			if e, ok := p.(jinc); ok {
+				if g != nil {
+					g.inconclusive("JSON text not decidable: " + e.msg)
+				}
 				d, rest, errMsg = nil, nil, e.msg
 				return
 			}
@@ -275,6 +380,10 @@ func parseFirst(b *Blob) (d *Doc, rest *Blob, errMsg string) {
 			if c.bi < len(s.B) {
 				rs = append(rs, BSeg{B: s.B[c.bi:]})
 			}
+		} else if s.Sym != nil {
+			if c.symi < len(s.Sym) {
+				rs = append(rs, BSeg{Sym: s.Sym[c.symi:]})
+			}
 		} else {
 			rs = append(rs, s)
 		}
@@ -284,8 +393,8 @@ func parseFirst(b *Blob) (d *Doc, rest *Blob, errMsg string) {
 }
 
 // parseWhole requires exactly one value (plus whitespace).
-func parseWhole(b *Blob) (*Doc, string) {
-	d, rest, e := parseFirst(b)
+func parseWhole(g *G, b *Blob) (*Doc, string) {
+	d, rest, e := parseFirst(g, b)
 	if e != "" {
 		return nil, e
 	}
@@ -504,7 +613,7 @@ func (e *jenc) callMarshaler(recv Value, t types.Type) *Doc {
 		return &Doc{K: DNull}
 	}
 	b := g.asBlob(res[0])
-	d, msg := parseWhole(b)
+	d, msg := parseWhole(g, b)
 	if msg != "" {
 		return e.fail("json: error calling MarshalJSON for type " + typeString(t) + ": " + msg)
 	}
@@ -1180,10 +1289,7 @@ func (g *G) jsonUnmarshalDoc(d *Doc, v Value, useNumber bool) Value {
 
 func (g *G) jsonUnmarshal(data Value, v Value) Value {
 	b := g.asBlob(data)
-	if b.hasSymBytes() {
-		g.inconclusive("json.Unmarshal of symbolic bytes")
-	}
-	d, msg := parseWhole(b)
+	d, msg := parseWhole(g, b)
 	if msg != "" {
 		return g.mkError(S(msg), Iface{})
 	}
@@ -1214,7 +1320,7 @@ func init() {
 		return g.jsonUnmarshal(a[0], a[1])
 	})
 	reg("encoding/json.Valid", func(g *G, fr *Frame, fn *ssa.Function, a []Value) Value {
-		_, msg := parseWhole(g.asBlob(a[0]))
+		_, msg := parseWhole(g, g.asBlob(a[0]))
 		return Bool{C: msg == ""}
 	})
 	reg("encoding/json.NewDecoder", func(g *G, fr *Frame, fn *ssa.Function, a []Value) Value {
@@ -1253,10 +1359,7 @@ func init() {
 		if len(d.buf.trimSpace().Segs) == 0 {
 			return load(g.run.global(g.run.P.Pkgs["io"].Var("EOF")))
 		}
-		if d.buf.hasSymBytes() {
-			g.inconclusive("json.Decoder over symbolic bytes")
-		}
-		doc, rest, msg := parseFirst(d.buf)
+		doc, rest, msg := parseFirst(g, d.buf)
 		if msg != "" {
 			if msg == "unexpected end of JSON input" {
 				d.err = load(g.run.global(g.run.P.Pkgs["io"].Var("ErrUnexpectedEOF")))
